@@ -65,9 +65,6 @@ def ctxFor (ctl : Ctl) (stAfterRefresh : CState) (c : GroupCfg) (sc : ScanCase) 
   let pg ← findProv stAfterRefresh.prov c.cloudGroup
   let gst ← findState stAfterRefresh.groups c.name
   let gst := if autoDiscover c then { gst with minEff := pg.asg.min, maxEff := pg.asg.max } else gst
-  let gst := match (viewOf c sc.pods sc.nodes).nodes with
-    | [] => gst
-    | n :: _ => { gst with cachedCPU := n.allocCPU, cachedMem := n.allocMem * 1000 }
   pure { globalDry := ctl.globalDry, cfg := c, st := gst, g := pg, view := viewOf c sc.pods sc.nodes,
          nowMock := sc.nowMock, nowReal := sc.nowReal }
 
@@ -142,6 +139,8 @@ def handleLine (ds : DState) (line : String) : DState × Json :=
         let diffs := (if r.val.isSome == ic.obs.ok then [] else ["init:ok"]) ++ (if r.j == ic.obs.j then [] else ["init:journal"])
         let detail := if diffs.isEmpty then [] else [("model", Json.mkObj [("ok", toJson r.val.isSome), ("j", toJson r.j)])]
         ({ ctl := ic.ctl, st := r.val }, Json.mkObj ([("diffs", toJson diffs), ("mon", toJson ([] : List String)), ("branches", toJson ([] : List String))] ++ detail))
+    | .ok "begin" => ({}, Json.mkObj [("skip", toJson true)])
+    | .ok "abandon" => ({}, Json.mkObj [("skip", toJson true)])
     | .ok "shift" =>
       match j.getObjValAs? Int "d" with
       | .error e => (ds, Json.mkObj [("error", toJson e)])
